@@ -113,6 +113,13 @@ def distance_case(case):
     p, q = mk_dist(case["p"]), mk_dist(case["q"])
     sp, sq = list(p.distribution_dict.items()), list(q.distribution_dict.items())
     sig = case["sigma"]
+    if isinstance(sig, list) and not case.get("nonbinary"):
+        # several kernel widths may be given as any sequence: list, tuple, numpy array - same value
+        base = compute_mmd(p, q, {"sigma": list(sig)})
+        for kind, sv in (("tuple", tuple(sig)), ("numpy array", np.array(sig, dtype=float))):
+            alt = compute_mmd(p, q, {"sigma": sv})
+            if abs(alt - base) > TOL or alt < -TOL:
+                return {"ok": False, "msg": "squared MMD with the kernel widths %s given as a %s is %r, as a list %r" % (sig, kind, alt, base), "sig": "mmd:sigma-container"}
     if case.get("nonbinary"):
         # the MMD kernel is defined on integer-coded BIT strings; for other outcome alphabets the library refuses (ValueError) and nothing is claimed
         compute_mmd = lambda *a, **k: 0.0  # noqa: E731
@@ -208,7 +215,9 @@ def run(run):
         cc += [{"items": [[[0, 10], 1], [[12, 1], 2]], "style": style, "valid": True}, {"items": [[[10, 0], 1], [[1, 0], 3], [[0, 1], 2]], "style": style, "valid": True},
                {"items": [[[1, 0, 11], 2], [[10, 1, 1], 1], [[1, 1, 0], 1]], "style": style, "valid": True}]
     bad = [([], "empty"), ([[[0, 1], -1], [[1, 1], 3]], "negative weight"), ([[[0, 0], -1], [[1, 1], -3]], "all weights negative"), ([[[0], 1], [[1, 1], 1]], "unequal key lengths"),
-           ([[[0, 0], -0.5]], "single negative"), ([[[0, 1], 1], [[1, 1], -1e-3]], "small negative")]
+           ([[[0, 0], -0.5]], "single negative"), ([[[0, 1], 1], [[1, 1], -1e-3]], "small negative"),
+           ([[[0, 1], 1.0], [[1, 1], -1e-13]], "tiny negative weight"), ([[[0, 1], 0.5], [[1, 0], 0.5], [[1, 1], -1e-15]], "tiny negative weight next to weights summing to 1"),
+           ([[[0], -1e-300], [[1], 1.0]], "denormal-size negative weight")]
     for items, why in bad:
         for style in ("tuple", "str"):
             cc.append({"items": items, "style": style, "valid": False, "why": why})
@@ -239,7 +248,7 @@ def run(run):
     rot = [p[1:] + p[:1] for p in base if len(p) >= 3][::3]
     zero = [[[b, x] for b, x in p] + [[[1, 1], 0]] for p in base[:6] if all(b != [1, 1] for b, _ in p)]   # explicit zero-weight key
     pool = base + rev + rot + zero
-    sig = [0.5, 1, 2, [1, 2], 0.1, [0.25, 1, 4]] if deep else [0.5, 1, 2, [1, 2]]
+    sig = [0.5, 1, 2, [1, 2], 0.1, [0.25, 1, 4], [0.5, 1, 2, 4]] if deep else [0.5, 1, 2, [1, 2], [0.5, 1, 2, 4]]
     dc = [{"p": a, "q": b, "sigma": s} for a in pool for b in pool for s in sig]
     dc += [{"p": a, "q": b, "sigma": 1, "eps": e} for a in pool for b in pool for e in ((0.05, 1e-3, 0.3) if thorough else (0.05,))]   # a clipping constant that actually clips
     # outcomes of non-binary subsystems with multi-digit entries
